@@ -149,7 +149,7 @@ Definition determine_whether_to_implement
 (** What the builder stores under a name in [_cls_dict]. *)
 Inductive wr := WGen (* a method / tuple made by attrs *) | WNone (* the value None *).
 
-Inductive err := EValue | EType.
+Inductive err := EValue | EType | EOther (* never predicted: any other exception class *).
 Inductive res := Err (e : err) | Ok (writes : list (dn * wr)).
 
 (** [attrs(...)] up to and including [wrap(cls)], as far as [_cls_dict] is concerned.
